@@ -16,7 +16,14 @@
 
 package val
 
-import "math"
+import (
+	"context"
+	"math"
+
+	"github.com/mohae/uvarint"
+
+	"github.com/dolthub/dolt/go/store/hash"
+)
 
 // Property-level lemmas (ghost code): each is verified using only the contracts of the
 // functions it calls. They are ordinary Go and can also be executed.
@@ -132,4 +139,52 @@ func verif_lemma_rt_string(buf []byte, v string) {
 	r := readString(buf)
 	verif_assert(len(r) == len(v))
 	verif_assert(verif_forall(0, len(v), func(i int) bool { return r[i] == v[i] }))
+}
+
+// ---- adaptive (inline / out-of-band) values (C16)
+
+// every byte string is exactly one of NULL, inline, out-of-band
+func verif_lemma_c16_partition(v AdaptiveValue) {
+	n, i, o := v.IsNull(), v.isInlined(), v.IsOutOfBand()
+	verif_assert((n && !i && !o) || (!n && i && !o) || (!n && !i && o))
+}
+
+// the inline encoding reads back as exactly the bytes that were encoded
+func verif_lemma_c16_inline_roundtrip(value []byte) {
+	enc := AdaptiveValueInlineBytes(value)
+	dec, ok := InlineValueBytes(enc)
+	verif_assert(ok && len(dec) == len(value))
+	verif_assert(verif_forall(0, len(value), func(k int) bool { return dec[k] == value[k] }))
+	verif_assert(IsInlineAdaptiveBytes(enc) && !IsNullAdaptiveValueBytes(enc))
+	verif_assert(AdaptiveValue(enc).getMessageLength() == int64(len(value)) && AdaptiveValue(enc).inlineSize() == int64(len(enc)))
+}
+
+// the SQLite4 variable-length integer used for the out-of-band length round-trips, takes 1..9 bytes, and its first
+// byte is zero exactly for the value zero (proved on the dependency's own code: both functions are inlined)
+func verif_lemma_c16_uvarint_roundtrip(x uint64) {
+	buf := make([]byte, 9)
+	n := uvarint.Encode(buf, x)
+	v, m := uvarint.Uvarint(buf)
+	verif_assert(1 <= n && n <= 9)
+	verif_assert(v == x && m == n)
+	verif_assert((buf[0] == 0) == (x == 0))
+}
+
+// an out-of-band value built from |value| decodes to the length of |value| and the address the store returned, and is
+// recognised as out-of-band exactly when |value| is not empty (an empty value would read back as inline: the callers
+// that persist the result must therefore never convert an empty value, see BuildPermissive)
+func verif_lemma_c16_outofband_roundtrip(ctx context.Context, value []byte, vs ValueStore) {
+	res, err := convertBytesToOutOfBand(ctx, value, vs, nil)
+	if err != nil {
+		return
+	}
+	verif_assert(len(res) >= 21 && len(res) <= 29)
+	verif_assert(res.IsOutOfBand() == (len(value) > 0))
+	length, lengthBytes := uvarint.Uvarint(res)
+	verif_assert(length == uint64(len(value)) && lengthBytes+hash.ByteLen == len(res))
+	verif_assert(hash.New(res[lengthBytes:]) == verif_ghost.aHash)
+	if len(value) > 0 {
+		verif_assert(res.getMessageLength() == int64(len(value)) && res.outOfBandSize() == int64(len(res)))
+		verif_assert(res.inlineSize() == 1+int64(len(value)))
+	}
 }
